@@ -62,7 +62,7 @@ impl DiagnosticItem {
 
 impl PartialEq for DiagnosticItem {
     fn eq(&self, other: &Self) -> bool {
-        self.range == other.range && self.file == other.file
+        self.range == other.range && self.file == other.file && self.title == other.title
     }
 }
 impl Eq for DiagnosticItem {}
@@ -75,11 +75,12 @@ impl PartialOrd for DiagnosticItem {
 
 impl Ord for DiagnosticItem {
     fn cmp(&self, other: &Self) -> std::cmp::Ordering {
-        if self.file == other.file {
-            self.range.cmp(&other.range)
-        } else {
-            self.file.cmp(&other.file)
-        }
+        // Two different diagnostics on the same text are ordered by title, so
+        // that their order does not depend on the order they were found in.
+        self.file
+            .cmp(&other.file)
+            .then_with(|| self.range.cmp(&other.range))
+            .then_with(|| self.title.cmp(&other.title))
     }
 }
 
